@@ -22,7 +22,11 @@ type c20Case struct {
 	Partner string // conv: "same" (equally degenerate) or "normal" (same channel count, 2 frames)
 }
 
-func c20Run(cs c20Case) (fs []F) {
+func c20Run(cs c20Case) []F {
+	return core.Guard("inert", func() []F { return c20RunRaw(cs) })
+}
+
+func c20RunRaw(cs c20Case) (fs []F) {
 	fail := func(kind, format string, a ...any) {
 		fs = append(fs, core.Failf("inert/"+cs.Op+"/"+kind, "%+v: %s", cs, fmt.Sprintf(format, a...)))
 	}
@@ -256,7 +260,7 @@ func init() {
 					}
 				}
 			}
-			wide := []shape{{9, 0, 0}, {9, 0, 3}, {65, 0, 0}, {65, 0, 2}, {2, 0, 1100}, {0, 1100, 1100}, {3, 0, 5000}}
+			wide := []shape{{9, 0, 0}, {9, 0, 3}, {65, 0, 0}, {65, 0, 2}, {256, 0, 0}, {256, 0, 2}, {300, 0, 1}, {1024, 0, 0}, {2, 0, 1100}, {0, 1100, 1100}, {3, 0, 5000}}
 			for t := 0; t < dyn.NB; t++ {
 				shs := shapes
 				if t == dyn.Int8 || t == dyn.Uint32 || t == dyn.Float64 || t == dyn.Int64 {
